@@ -79,8 +79,7 @@ theorem retry_kept_reset_other (s : St) (k k' : Nat) (hkk : k ≠ k') (hp : Pend
   | some r =>
     simp only []
     exact pending_of_key ((touch_resetKey_aux s k' r hr _
-      ((touch_startKey (newRec (cancelOpt s r.gen r.cancelOf) k' r.gen) k' false).trans
-        (touch_resetTail s _ k' r.gen))).2.1 k hkk) hp
+      (touch_startKey (newRec (cancelOpt s r.gen r.cancelOf) k' r.gen) k' false)).2.1 k hkk) hp
 
 /-- every event that is neither a call, nor the timer of `k`, nor the exit bookkeeping keeps it -/
 theorem retry_kept_instStep (s s' : St) (g i : Nat) (f : G → Inst → Option Inst) (k : Nat)
@@ -121,7 +120,7 @@ theorem retry_fires (s : St) (k e : Nat) (r : Rec) (hK : KInv s) (hk : s.key k =
   obtain ⟨y1, hy1⟩ := gens_cancelOpt_some _ r.gen r.cancelOf y0 hy0'
   obtain ⟨r', y', x, h1, h2, h3, h4, h5, h6, h7, h8⟩ :=
     start_force_spec (setRec s k (some { r with deferRetry := none })) k { r with deferRetry := none } y1
-      (hK.fn k r hk) hy1
+      (hK.exFn k r hk (Or.inr hex)) hy1
   refine ⟨start (setRec s k (some { r with deferRetry := none })) k { r with deferRetry := none } true,
     r', y1.insts.length, y', x, ?_, h1, h2, h4, ?_, h6, h7, h8⟩
   · have hctx' : ∀ v, (setRec s k v).ctx = some c := fun _ => hc
